@@ -18,9 +18,16 @@ proposer's removals.  Histories are lists of events `define | submit | block | v
     C10 nor C11 theorems are on main yet, hence the hypotheses; without `BaseSound` the
     statement is false for the model (`c23_full_refuted`): `c23_full` quantifies over arbitrary
     starting states of the base layer.
-(3) `events_paired`: see below.
+(3) `events_paired`: the notification log = the difference of the set of pooled ids between
+    consecutive states (what the driver prints after every op and what agrees, line by line,
+    with the real dispatcher's MsgNewTx / MsgRemoveTx stream in every run): for every id the
+    notifications alternate add, remove, add, … starting with an add — each addition is followed
+    by at most one removal before the next addition, every removal is preceded by an addition.
+    No hypothesis about the base layer is needed (`tp.pool` is a map: its keys stay distinct,
+    `pool_keys_distinct`).
 -/
 import BytomModel.Lemmas.NodePoolInv
+import BytomModel.Lemmas.PoolKeys
 
 namespace BytomModel.Props.C23
 open BytomModel.Node BytomModel.Ledger BytomModel.NodeLedger BytomModel.NodePool
@@ -186,5 +193,40 @@ theorem c23_full_refuted : ¬ c23_full := by
     cases ht
     decide) 10 (by decide)
   exact this (by decide)
+
+/-! ### (3) pool notifications are paired -/
+
+open BytomModel.Lemmas.PoolKeys
+
+/-- `tp.pool` is a map: in every reachable state its keys are pairwise distinct -/
+theorem pool_keys_distinct (s0 : NodePool.State) (h0 : (poolIds s0).Nodup) (evs : List Ev) :
+    (poolIds (run s0 evs)).Nodup := by
+  induction evs generalizing s0 with
+  | nil => exact h0
+  | cons e es ih =>
+    unfold run
+    simp only [List.foldl_cons]
+    exact ih _ (pk_stepEv (s := s0) h0 e)
+
+/-- **C23 (3).** For every history (no hypothesis on the base layer) and every transaction id
+    that is not pooled at the start, the notifications about that id alternate and start with an
+    addition. -/
+theorem events_paired (s0 : NodePool.State) (h0 : (poolIds s0).Nodup) (evs : List Ev) (id : Nat)
+    (hid : id ∉ poolIds s0) : Alt true (idLog id (evLog s0 evs)) := by
+  have := alt_evLog id evs s0 h0
+  simpa [hid] using this
+
+/-- … and for an id that is pooled at the start they start with its removal -/
+theorem events_paired_pooled (s0 : NodePool.State) (h0 : (poolIds s0).Nodup) (evs : List Ev) (id : Nat)
+    (hid : id ∈ poolIds s0) : Alt false (idLog id (evLog s0 evs)) := by
+  have := alt_evLog id evs s0 h0
+  simpa [hid] using this
+
+/-- non-vacuity (and a test): tA and a conflicting spend tC of the same output are submitted,
+    the proposer refuses and removes tC — its notifications are add, remove; tA's just add -/
+def exTC : Ledger.Tx := { id := 12, ins := [100], outs := [{ id := 210, kind := .normal, amount := 44 }] }
+example : idLog 12 (evLog exS0 [.submit exTA, .submit exTC, .propose]) = [true, false] ∧
+    idLog 10 (evLog exS0 [.submit exTA, .submit exTC, .propose]) = [true] := by decide
+example : (poolIds exS0).Nodup := by decide
 
 end BytomModel.Props.C23
